@@ -16,7 +16,7 @@ CHECKS = {
     'C02': dict(
         technique='model-based property testing: generated property skeletons with alias/reference placements, an independent scoping function as reference model, verdict differential on three construction routes (parser, API constructors, but()); small-scope exhaustive enumeration of simple-event properties',
         level='bounded exploration with a reference model of HPL scoping: thousands of random properties per run (all scope/pattern kinds, disjunctions, references at top level / quantifier body / quantifier domain / nested), quantifier-hygiene faults, duplicate channels, and the 77 064-point space of simple-event properties with one reference per event (sliced in the quick tier, exhaustive in the thorough tier)',
-        note='alias namespace {A,B,C,Z}; the same alias on two alternatives of one disjunction is a documented don\'t-care; own alias captured by a quantifier is the listed known finding F16',
+        note='alias namespace {A,B,C,Z}; the same alias on two alternatives of one disjunction is a documented don\'t-care; own alias captured by a quantifier (finding F16) is repaired and probed by a labelled family',
         ref='DESIGN.md section 4, C02',
     ),
     'C03': dict(
